@@ -44,7 +44,7 @@ inductive V where
   | bool (b : Bool)
   | int (i : Int)
   | str (s : String)
-  | float (bits : UInt64)        -- an IEEE double, by its bit pattern (only ever produced by `avgDiv`)
+  | float (bits : UInt64)        -- an IEEE double, by its bit pattern
   | skip | stop                  -- the SKIP / STOP sentinels
   | obj (n : Nat)                -- spec object number n (an aggregator, a key-spec, a Limit)
   | list (xs : List V)
@@ -99,23 +99,48 @@ def isSkip : V → Bool
 
 /-! ### Python dict primitives on entry lists -/
 
-/-- hash/eq of dict keys: scalars by value (`True == 1`), spec objects by identity;
-    containers are not used as keys (lists/dicts are unhashable; tuples are excluded) -/
-def keyEq : V → V → Bool
-  | .bool a, .bool b => a == b
-  | .bool a, .int b => (if a then 1 else 0) == b
-  | .int a, .bool b => a == (if b then 1 else 0)
-  | .int a, .int b => a == b
-  | .str a, .str b => a == b
-  | .none, .none => true
-  | .obj a, .obj b => a == b
-  | .skip, .skip => true
-  | .stop, .stop => true
+/-- a hashable scalar, up to Python's `==` / `hash`: numbers by value (`True == 1 == 1.0`, `-0.0 == 0`),
+    strings, None, the sentinels; spec / class objects by identity -/
+inductive SKey where
+  | none | num (i : Int) | flt (bits : UInt64) | str (s : String) | obj (n : Nat) | skip | stop
+  deriving Repr, DecidableEq
+
+/-- a dict key up to equality: a scalar, or a tuple of scalars (a tuple with a container or another
+    tuple inside is outside the modelled key domain) -/
+inductive CKey where
+  | s (k : SKey)
+  | tup (ks : List SKey)
+  deriving Repr, DecidableEq
+
+/-- a float as a key: an integral value (below 2^62 in size) is the int it equals, anything else
+    its bit pattern (NaN keys are not in the generated domain) -/
+def fkey (b : UInt64) : SKey :=
+  let f := Float.ofBits b
+  if f == f.floor && f.abs < 4.0e18 then .num f.toInt64.toInt else .flt b
+
+def skey : V → Option SKey
+  | .none => some .none
+  | .bool b => some (.num (if b then 1 else 0))
+  | .int i => some (.num i)
+  | .float b => some (fkey b)
+  | .str s => some (.str s)
+  | .obj n => some (.obj n)
+  | .skip => some .skip
+  | .stop => some .stop
+  | _ => Option.none
+
+def ckey : V → Option CKey
+  | .tuple xs => (xs.mapM skey).map .tup
+  | v => (skey v).map .s
+
+/-- hash/eq of dict keys -/
+def keyEq (a b : V) : Bool :=
+  match ckey a, ckey b with
+  | some x, some y => decide (x = y)
   | _, _ => false
 
-def hashable : V → Bool
-  | .list _ | .dict _ | .tuple _ | .float _ => false     -- tuples / floats: outside the modelled key domain
-  | _ => true
+/-- lists, dicts (and tuples holding them) are unhashable -/
+def hashable (v : V) : Bool := (ckey v).isSome
 
 def dget : List (V × V) → V → Option V
   | [], _ => none
@@ -159,6 +184,9 @@ inductive Fn where
   | const (v : V)                -- lambda t: v
   | texpr (ops : List TOp)       -- the T-expression T<op1><op2>…
   | cls (c : Cls)                -- a class object used as a callable: type / str / bool / int
+  | foldSum                      -- `Sum()` as the subspec of another Fold: not the aggregator (CUR_AGG is
+                                 -- taken), a plain fold of the item — Fold.glomit's `self._fold(target_iter(…))`
+  | foldCount                    -- `Count()` likewise: the number of elements of the item
   deriving Repr, Inhabited, BEq
 
 def asInt : V → Option Int
@@ -176,6 +204,27 @@ def seqGet (xs : List V) (i : Int) : Option V :=
 
 /-- Python `==` between an item and a scalar constant (scalars only) -/
 def scalarEq (a b : V) : Bool := keyEq a b
+
+/-! ### numbers: ints (bools) are exact, floats are IEEE doubles carried by their bit pattern -/
+
+/-- `float(v)` as bits: what Python's float arithmetic converts an int operand to (exact below
+    2^53, round-to-nearest-even above) -/
+def toFBits : V → Option UInt64
+  | .float b => some b
+  | v => (asInt v).map (fun i => (Float.ofInt i).toBits)
+
+def faddBits (a b : UInt64) : UInt64 := (Float.ofBits a + Float.ofBits b).toBits
+def fdivBits (a b : UInt64) : UInt64 := (Float.ofBits a / Float.ofBits b).toBits
+def fltBits (a b : UInt64) : Bool := Float.ofBits a < Float.ofBits b
+
+/-- `a + b` between numbers: int + int is exact, anything with a float is float addition -/
+def numAdd (a b : V) : Option V :=
+  match asInt a, asInt b with
+  | some x, some y => some (.int (x + y))
+  | _, _ =>
+    match toFBits a, toFBits b with
+    | some x, some y => some (.float (faddBits x y))
+    | _, _ => none
 
 /-- `cur[k]` inside `_t_eval` (KeyError / IndexError / TypeError → PathAccessError) -/
 def getItem (k : V) (t : V) : Except Err V :=
@@ -269,6 +318,7 @@ def truthy : V → Bool
   | .str s => !s.isEmpty
   | .list xs | .tuple xs => !xs.isEmpty
   | .dict es => !es.isEmpty
+  | .float b => !(Float.ofBits b == 0)
   | _ => true
 
 mutual
@@ -322,6 +372,19 @@ def Fn.apply : Fn → V → Except Err V
   | .item k, t => getItem k t
   | .texpr ops, t => tEval ops t
   | .cls c, t => c.apply t
+  | .foldSum, t =>
+    match t with
+    | .list xs | .tuple xs =>
+      -- ret = init(); for v in iterator: ret = op(ret, v)
+      xs.foldlM (fun acc v => match numAdd acc v with | some r => .ok r | none => .error (err "TypeError")) (.int 0)
+    | .dict es =>
+      (es.map (·.1)).foldlM (fun acc v => match numAdd acc v with | some r => .ok r | none => .error (err "TypeError")) (.int 0)
+    | _ => .error (err "FoldError")            -- can only Sum on iterable targets
+  | .foldCount, t =>
+    match t with
+    | .list xs | .tuple xs => .ok (.int xs.length)
+    | .dict es => .ok (.int es.length)
+    | _ => .error (err "FoldError")
   | .skipOdd, t =>
     match asInt t with
     | some i => .ok (if pyMod i 2 != 0 then .skip else t)
@@ -375,19 +438,22 @@ def sampleStep (size : Nat) (tbl : List Nat) (st : Nat × List V) (target : V) :
     let pos := draw tbl st.1
     (st.1 + 1, if pos < size then st.2.set pos target else st.2)
 
-/-- `a > b` / `a < b` between ints (bools) or between strings; anything else is a TypeError -/
+/-- `a > b` / `a < b` between ints (bools), between strings, or between numbers one of which is a
+    float (compared as doubles; an int operand is converted: exact below 2^53); anything else is a
+    TypeError -/
 def pyLt (a b : V) : Option Bool :=
   match asInt a, asInt b with
   | some x, some y => some (x < y)
   | _, _ =>
     match a, b with
     | .str x, .str y => some (x < y)
-    | _, _ => none
+    | _, _ =>
+      match toFBits a, toFBits b with
+      | some x, some y => some (fltBits x y)
+      | _, _ => none
 
-/-- `float(sum) / count`: IEEE-754 double division, a primitive (the sum of the averaged
-    ints stays far below 2^53, so `float(sum)` is exact) -/
-def avgDiv (s : Int) (n : Nat) : V :=
-  .float ((Float.ofInt s / Float.ofNat n).toBits)
+/-- `avg_acc[0] / avg_acc[1]`: the float sum divided by the (int) count -/
+def avgDiv (sum : UInt64) (n : Nat) : V := .float (fdivBits sum (Float.ofNat n).toBits)
 
 /-- `iter(v)` -/
 def iterOf : V → Option (List V)
@@ -420,21 +486,21 @@ def aggStep (self : V) (a : Agg) (target : V) (tree : List (V × V)) : Except Er
       | some false => .ok (cur, tree)
       | none => .error (err "TypeError")
   | .avg =>
-    -- avg_acc = tree[self] (or [0.0, 0]); avg_acc[0] += target; avg_acc[1] += 1
+    -- avg_acc = tree[self] (or [0.0, 0]); avg_acc[0] += target; avg_acc[1] += 1      (a FLOAT sum)
     let (s, n) := match dget tree self with
-      | some (.list [.int s, .int n]) => (s, n.toNat)
-      | _ => (0, 0)
-    match asInt target with
-    | some i => .ok (avgDiv (s + i) (n + 1), dset tree self (.list [.int (s + i), .int (n + 1)]))
+      | some (.list [.float s, .int n]) => (s, n.toNat)
+      | _ => ((0 : UInt64), 0)
+    match toFBits target with
+    | some x => .ok (avgDiv (faddBits s x) (n + 1), dset tree self (.list [.float (faddBits s x), .int (n + 1)]))
     | none => .error (err "TypeError")
   | .sum f =>
     match f.apply target with
     | .error e => .error e
     | .ok t =>
       let cur := (dget tree self).getD (.int 0)          -- if self not in tree: tree[self] = init()
-      match asInt cur, asInt t with
-      | some x, some y => .ok (.int (x + y), dset tree self (.int (x + y)))
-      | _, _ => .error (err "TypeError")
+      match numAdd cur t with                            -- tree[self] = op(tree[self], target)
+      | some r => .ok (r, dset tree self r)
+      | none => .error (err "TypeError")
   | .count =>
     let cur := (dget tree self).getD (.int 0)
     match asInt cur with
@@ -481,7 +547,7 @@ inductive GSpec where
   | agg (oid : Nat) (a : Agg)                      -- an aggregator object
   | fn (f : Fn)                                    -- a callable / T-expression in value position
   | limit (oid : Nat) (n : Nat) (sub : GSpec)      -- Limit(n, subspec)
-  | nested (g : GSpec)                             -- a Group(g) object in value position
+  | nested (gid : Nat) (g : GSpec)                 -- the Group object number `gid` (spec g) in value position
   deriving Repr, Inhabited, BEq
 
 /-- the sub-tree dict stored in slot `k` (`tree[k]`): KeyError if absent; if the slot does
@@ -531,7 +597,7 @@ def gstep : GSpec → V → List (V × V) → Except Err (V × List (V × V))
     match f.apply target with
     | .ok v => .ok (v, tree)
     | .error e => .error e
-  | .nested g, target, tree =>
+  | .nested _ g, target, tree =>
     -- Group.glomit in its own child scope: a fresh ACC_TREE; the outer tree is not touched
     match iterOf target with
     | none => .error (err "UnregisteredTarget")
